@@ -32,6 +32,8 @@ type repairRow struct {
 	W               int                `json:"w"`
 	SemiSync        bool               `json:"semisync"`
 	Stale           []string           `json:"stale"`
+	FaultStmt       string             `json:"faultstmt"` // the statement the injected failure hit ("" none)
+	FaultAt         string             `json:"faultat"`
 	SawOffline      map[string]bool    `json:"sawoffline"`
 	SawMarked       map[string]bool    `json:"sawmarked"`
 	Unrepairable    map[string]bool    `json:"unrepairable"`
@@ -92,6 +94,7 @@ func TestVerifC10(t *testing.T) {
 		semisync bool
 		aggr     bool
 		fault    bool
+		pin      *faultSpec // a specific call of the stale-master repair fails once
 	}
 	var bases []base
 	for _, n := range []int{3, 4} {
@@ -104,16 +107,27 @@ func TestVerifC10(t *testing.T) {
 			for j := 0; j < n-1; j++ {
 				nodes = append(nodes, nodeOpts[rng.Intn(len(nodeOpts))])
 			}
-			bases = append(bases, base{n, nodes, []string{"rw", "sro"}[rng.Intn(2)], rng.Intn(4) == 0, rng.Intn(4) != 0, rng.Intn(2) == 0, rng.Intn(3) == 0})
+			bases = append(bases, base{n, nodes, []string{"rw", "sro"}[rng.Intn(2)], rng.Intn(4) == 0, rng.Intn(4) != 0, rng.Intn(2) == 0, rng.Intn(3) == 0, nil})
 		}
 	}
 	// single-dimension sweeps (each class alone on one node, others canonical)
 	for _, o := range nodeOpts {
 		for _, ag := range []bool{false, true} {
-			bases = append(bases, base{3, []nodeInit{o, {"sro", false, "master", "running", true}}, "rw", false, true, ag, false})
+			bases = append(bases, base{3, []nodeInit{o, {"sro", false, "master", "running", true}}, "rw", false, true, ag, false, nil})
 		}
 	}
 	rng.Shuffle(len(bases), func(a, b int) { bases[a], bases[b] = bases[b], bases[a] })
+	// pinned first: a second (stale) master whose repair fails once at each of its steps - fencing, taking offline
+	// and marking must still happen, whichever step reports the error
+	var pinned []base
+	for _, st := range []string{"SetSuperReadOnly", "SetOffline", "SemiSyncDisable", "StopReplica", "ChangeSource", "StartReplica"} {
+		for _, ro := range []string{"rw", "sro"} {
+			pinned = append(pinned, base{3, []nodeInit{{ro, false, "none", "running", true}, {"sro", false, "master", "running", true}}, "rw", false, true, false, false,
+				&faultSpec{Chan: "sql", Stmt: st, At: "h2", Occ: 0, Times: 1, Kind: "fail"}})
+		}
+	}
+	rng.Shuffle(len(pinned), func(a, b int) { pinned[a], pinned[b] = pinned[b], pinned[a] })
+	bases = append(pinned, bases...)
 	runs := 0
 	for bi, b := range bases {
 		if bi%sn != si {
@@ -131,10 +145,18 @@ func TestVerifC10(t *testing.T) {
 		sc := vScenario{ID: id, Hosts: hosts, Master: "h1", Manager: "h1", W: 1, Base: 3, Req: reqSpec{Kind: "none"}, Policy: "flow", Rounds: 20,
 			Cfg: map[string]any{"failover": false, "semi_sync": b.semisync, "aggressive_repair": b.aggr, "repair_max_attempts": 2, "repair_cooldown": 2,
 				"inactivation_delay": 2}}
+		if b.pin != nil {
+			sc.Fault = b.pin
+			sc.ID = fmt.Sprintf("%s-fail-%s@%s", id, b.pin.Stmt, b.pin.At)
+			id = sc.ID
+		}
 		row := repairRow{Kind: "repair", Scn: id, HA: hosts, Master: "h1", W: 1, SemiSync: b.semisync, Stale: []string{}, SawOffline: map[string]bool{}, SawMarked: map[string]bool{},
 			Unrepairable: map[string]bool{}, Resets: []resetObs{}, Aggressive: b.aggr, MaxAttempts: 2, CooldownMs: 2000, Classes: cls}
 		for _, h := range hosts {
 			row.SawOffline[h], row.SawMarked[h], row.Unrepairable[h] = false, false, false
+		}
+		if b.pin != nil {
+			row.Faulted, row.FaultStmt, row.FaultAt = true, b.pin.Stmt, b.pin.At
 		}
 		startAtt := map[string]int{}
 		resetCnt := map[string]int{}
@@ -277,6 +299,15 @@ func (h *c10Hook) BeforeSQL(c *verifsim.SQLCall) verifsim.Decision {
 	*h.n++
 	if *h.n == h.at {
 		h.row.Faulted = true
+		h.row.FaultStmt, h.row.FaultAt = c.Stmt, c.At
+		switch c.Stmt {
+		case "StartReplica", "StartIO", "StopReplica", "StopIO", "ChangeSource", "ResetReplicaAll", "ResetReplica":
+			// the failed attempt is charged to the host's repair budget (limit 2): with a replication problem of its
+			// own it may legitimately end "broken beyond the allowed repair attempts"
+			if _, ok := h.row.Unrepairable[c.At]; ok {
+				h.row.Unrepairable[c.At] = true
+			}
+		}
 		return verifsim.Decision{Err: &verifsim.MyErr{Code: 1105, State: "HY000", Msg: "injected failure"}}
 	}
 	return verifsim.Decision{}
